@@ -7,7 +7,7 @@ CONSTANTS
   PanicJobs = {"j2"}
   Caught = TRUE
   DriverLoop = TRUE
-  Fix = FALSE
+  Fix = TRUE
   TimedFifo = FALSE
 SPECIFICATION Spec
-INVARIANTS Safety BoundedModuloKnown ThreadsBoundedModuloKnown
+INVARIANTS Safety Bounded ThreadsBounded NoDeviation
